@@ -220,13 +220,23 @@ namespace
     static_assert(output_buf_size <= std::numeric_limits<decltype(stream.avail_out)>::max());
 
     zerr = Z_OK;
-    while (zerr != Z_STREAM_END)
+    // A gzip file consists of one or more members, each a complete
+    // compressed stream; the uncompressed data is the concatenation
+    // of the uncompressed members.  member_done is true when we have
+    // just reached the end of a member.
+    bool member_done = false;
+    for (;;)
       {
 	errno = 0;
 	auto got = stream.avail_in = static_cast<avail_in_type>(fread(input_buffer, 1, input_buf_size, f));
 	if (ferror(f))
 	  {
 	    throw DFS::FileIOError(name, errno);
+	  }
+	if (got == 0 && member_done)
+	  {
+	    // Physical end-of-file directly after a complete member.
+	    break;
 	  }
 	// We rely on zlib to detect the end of the input stream.  If
 	// there is no more input here we will pass avail_in=0 to
@@ -240,6 +250,13 @@ namespace
 	stream.next_in = input_buffer;
 	do  // decompress some data from the input buffer.
 	  {
+	    if (member_done)
+	      {
+		// More input follows a complete member, so this must
+		// be another member.
+		check_zlib_error_code(inflateReset(&stream));
+		member_done = false;
+	      }
 	    stream.next_out = output_buffer;
 	    stream.avail_out = output_buf_size;
 	    zerr = inflate(&stream, Z_NO_FLUSH);
@@ -253,10 +270,12 @@ namespace
 		// Want more input data.
 		break;
 	      }
-	    if (zerr != Z_STREAM_END)
+	    if (zerr == Z_STREAM_END)
+	      member_done = true;
+	    else
 	      check_zlib_error_code(zerr);
 	  }
-	while (stream.avail_out == 0);
+	while (member_done ? stream.avail_in > 0 : stream.avail_out == 0);
       }
   }
 
